@@ -356,7 +356,7 @@ func (env *verifEnv) coqJval(t *symTok, name string, v interface{}) (string, boo
 			return "VStr " + coqStr("opaque"), true
 		}
 		if name == "protected_data_key" {
-			return "VStr " + coqStr("k"), true
+			return "VStr [1%N]", true
 		}
 		return "VStr " + coqStr(x), true
 	case int64:
